@@ -46,6 +46,15 @@ Theorem C11_closest_exact : forall own ops key count sender,
 Proof. exact closest_exact. Qed.
 Print Assumptions C11_closest_exact.
 
+(* The RPC layer (KademliaRPC.find_node, and the contacts of find_value) answers a requester with exactly the K
+   nearest contacts other than the node itself and the requester: the requester is excluded BEFORE truncation. *)
+Theorem C11_rpc_closest_exact : forall own ops key requester,
+  own < M -> Forall op_valid ops ->
+  exact_closest own (Some requester) (run own ops) key K (rpc_find_node own (run own ops) key requester) /\
+  exact_closest own (Some requester) (run own ops) key K (rpc_find_value_contacts own (run own ops) key requester).
+Proof. exact rpc_exact. Qed.
+Print Assumptions C11_rpc_closest_exact.
+
 (* A contact that answers the probe is still in the table after a newcomer with another id at another address
    was offered, whatever the rest of the environment says. *)
 Theorem C11_live_contact_kept : forall own ops p e x,
@@ -172,4 +181,7 @@ Proof. vm_compute. reflexivity. Qed.
 Example C11_ex_same_id_new_address :
   step true 0 (run 0 [Add (mkPeer 7 100 4444) env0]) (Add (mkPeer 7 200 4444) env0)
   = ([mkB 0 M [mkPeer 7 200 4444]], OAdd (Ret true) []).
+Proof. vm_compute. reflexivity. Qed.
+(* requester 3 looks up its own id in a table of twelve contacts: eight answers, itself left out, the ninth nearest in *)
+Example C11_ex_rpc : map pid (rpc_find_node 0 (run 0 gap_ops) 3 3) = [2; 1; 4; 11; 10; 12; 20; 2 ^ 383 + 3].
 Proof. vm_compute. reflexivity. Qed.
